@@ -58,8 +58,18 @@ def translate_builder(tree, tname="_sg_lookup_table"):
     f = _func(tree, "_buildSGLookupTable")
     phases = []
     body = _body(f)
-    if not body or ast.unparse(body[0]) != "%s.clear()" % tname:
-        _refuse(f, "builder does not start with %s.clear()" % tname)
+    shared = tname
+    # two recognised shapes: fill the shared table in place after clear(), or fill a local dict and publish it at the end
+    if body and ast.unparse(body[0]) == "%s.clear()" % tname:
+        pass
+    elif body and isinstance(body[0], ast.Assign) and isinstance(body[0].targets[0], ast.Name) and ast.unparse(body[0].value) == "{}":
+        tname = body[0].targets[0].id
+        pub = [k for k, st in enumerate(body) if ast.unparse(st) == "%s.update(%s)" % (shared, tname)]
+        if len(pub) != 1 or any(not (isinstance(st, ast.Return) and st.value is None) for st in body[pub[0] + 1:]):
+            _refuse(f, "local table %s is not published by one final %s.update(%s)" % (tname, shared, tname))
+        body = body[:pub[0]] + body[pub[0] + 1:]
+    else:
+        _refuse(f, "builder starts neither with %s.clear() nor with a local `table = {}`" % tname)
     i = 1
     alias_list = None
     while i < len(body):
@@ -188,10 +198,16 @@ def check_find(tree):
     """The operation-list lookup must have exactly the recognised shape."""
     want = {
         "_hashSymOpList": ["ssop = sorted((str(o) for o in symops))", "rv = hash(tuple(ssop))", "return rv"],
-        "_getSGHashLookupTable": ["if _sg_hash_lookup_table:\n    return _sg_hash_lookup_table",
-                                  "for sg in SpaceGroupList:\n    h = _hashSymOpList(sg.symop_list)\n    _sg_hash_lookup_table[h] = sg",
-                                  "assert len(_sg_hash_lookup_table) == len(SpaceGroupList)",
-                                  "return _getSGHashLookupTable()"],
+        "_getSGHashLookupTable": [["if _sg_hash_lookup_table:\n    return _sg_hash_lookup_table",
+                                   "for sg in SpaceGroupList:\n    h = _hashSymOpList(sg.symop_list)\n    _sg_hash_lookup_table[h] = sg",
+                                   "assert len(_sg_hash_lookup_table) == len(SpaceGroupList)",
+                                   "return _getSGHashLookupTable()"],
+                                  ["if _sg_hash_lookup_table:\n    return _sg_hash_lookup_table",
+                                   "table = {}",
+                                   "for sg in SpaceGroupList:\n    h = _hashSymOpList(sg.symop_list)\n    table[h] = sg",
+                                   "assert len(table) == len(SpaceGroupList)",
+                                   "_sg_hash_lookup_table.update(table)",
+                                   "return _sg_hash_lookup_table"]],
         "FindSpaceGroup": ["tb = _getSGHashLookupTable()", "hh = _hashSymOpList(symops)",
                            "if hh not in tb:\n    raise ValueError('Cannot find SpaceGroup for the specified symops.')",
                            "rv = tb[hh]",
@@ -203,6 +219,10 @@ def check_find(tree):
     alt = {"_hashSymOpList": [["ssop = sorted((str(o) for o in symops))", "rv = hash(tuple(ssop))", "return rv"]]}
     for name, stmts in want.items():
         got = [ast.unparse(s) for s in _body(_func(tree, name))]
+        if stmts and isinstance(stmts[0], list):
+            if got in stmts:
+                continue
+            stmts = stmts[-1]
         if got != stmts:
             for a, b in zip(got + ["<missing>"] * 9, stmts):
                 if a != b:
